@@ -819,7 +819,7 @@ func (x *executor) ctxOp(c *types.Context, t []string) string {
 			}
 			return "false"
 		}
-		get := "-"
+		get := "%!"
 		if v, ok := c.Get(key); ok {
 			get = encB(v)
 		}
